@@ -119,7 +119,7 @@ extern int CompressLine(
 
 extern void ExpandLine(char const* TokNam, unsigned TokenNum, struct as_dynstr* p_str);
 
-extern void KillCtrl(char* Line);
+extern void KillCtrl(struct as_dynstr* p_str);
 
 extern void AddCopyright(char const* NewLine);
 
